@@ -16,7 +16,13 @@
              deferred = value
          return deferred
 
-     BaseDeferred.wait:  with Awaiting(self): return self._wait()
+     BaseDeferred.wait:  if try_compute.depth > 0 and id(self) in try_compute.not_ready_yet: raise NotReadyError()
+                         with Awaiting(self):
+                             try: return self._wait()
+                             except NotReadyError:
+                                 if try_compute.depth > 0: try_compute.not_ready_yet[id(self)] = self
+                                 raise
+     TryCompute.__enter__: if self.depth == 0: self.not_ready_yet = {}                    [clear_memo]
      Awaiting.__enter__: if self.deferred.is_awaiting: raise DeferredCycle(); is_awaiting = True
      Awaiting.__exit__ : is_awaiting = False               (on every exit path, also exceptions)
      Deferred._wait    : if settled: return value;  value = fn(); settled = True; return value
@@ -43,11 +49,12 @@ Inductive node :=
 
 Definition graph := list node.
 
-(* the mutable part: Deferred.settled/value and BaseDeferred.is_awaiting of every object *)
-Record state := mkState { settled : list (option nres); awaiting : list bool }.
+(* the mutable part: Deferred.settled/value and BaseDeferred.is_awaiting of every object, and
+   TryCompute.not_ready_yet (membership of id(object)) *)
+Record state := mkState { settled : list (option nres); awaiting : list bool; memo : list bool }.
 
 Definition init_state (G : graph) : state :=
-  mkState (map (fun _ => None) G) (map (fun _ => false) G).
+  mkState (map (fun _ => None) G) (map (fun _ => false) G) (map (fun _ => false) G).
 
 Fixpoint set_nth {A} (l : list A) (k : nat) (a : A) : list A :=
   match l, k with
@@ -57,9 +64,15 @@ Fixpoint set_nth {A} (l : list A) (k : nat) (a : A) : list A :=
   end.
 
 Definition set_await (st : state) (k : nat) (b : bool) : state :=
-  mkState (settled st) (set_nth (awaiting st) k b).
+  mkState (settled st) (set_nth (awaiting st) k b) (memo st).
 Definition set_settled (st : state) (k : nat) (r : nres) : state :=
-  mkState (set_nth (settled st) k (Some r)) (awaiting st).
+  mkState (set_nth (settled st) k (Some r)) (awaiting st) (memo st).
+Definition set_memo (st : state) (k : nat) : state :=
+  mkState (settled st) (awaiting st) (set_nth (memo st) k true).
+(* TryCompute.__enter__ at depth 0: self.not_ready_yet = {} *)
+Definition clear_memo (st : state) : state :=
+  mkState (settled st) (awaiting st) (map (fun _ => false) (memo st)).
+Definition is_memo (st : state) (k : nat) : bool := nth k (memo st) false.
 Definition is_await (st : state) (k : nat) : bool := nth k (awaiting st) false.
 Definition get_settled (st : state) (k : nat) : option nres := nth k (settled st) None.
 
@@ -91,7 +104,10 @@ Fixpoint eval_deps (rec : state -> nat -> res) (deps : list nat) (acc : list Z) 
     end
   end.
 
+Definition is_nr (e : exn) : bool := match e with ENotReady => true | _ => false end.
+
 Section Wait.
+  Variable use_memo : bool.    (* true: the code as it is (fix 9baed24); false: the same loop without the not_ready_yet memo *)
   Variable bound : nat.        (* N1, the literal in `len(seen) >= N1` of deferred.wait: Gen/GenPartial.v wait_seen_bound *)
   Variable bound2 : nat.       (* N2, the literal in `polynomial_steps >= N2`: Gen/GenPartial.v wait_poly_bound *)
   Variable isp : nat -> bool.  (* isinstance(node k, LinearPolynomial) *)
@@ -99,6 +115,12 @@ Section Wait.
   Variable G : graph.
 
   Inductive sres := SRes (r : nres) (st : state) | SRaise (e : exn) (st : state) | SFuel.
+
+  (* BaseDeferred.wait:  if try_compute.depth > 0 and id(self) in try_compute.not_ready_yet: raise NotReadyError() *)
+  Definition memo_hit (st : state) (i : nat) : bool := use_memo && spec && is_memo st i.
+  (* ... except NotReadyError: if try_compute.depth > 0: try_compute.not_ready_yet[id(self)] = self; raise *)
+  Definition memo_rec (e : exn) (st : state) (i : nat) : state :=
+    if use_memo && spec && is_nr e then set_memo st i else st.
 
   (* one iteration of the while loop in wait(), then the rest of the loop *)
   (* polynomial_steps after the step from object i to the object j it yielded *)
@@ -114,6 +136,7 @@ Section Wait.
       | None => RRaise ECrash st
       | Some nd =>
         if stop_check seen p i then RRaise ECycle st
+        else if memo_hit st i then RRaise ENotReady st        (* found not ready earlier in this speculation *)
         else if is_await st i then RRaise ECycle st           (* Awaiting.__enter__ *)
         else
           let st1 := set_await st i true in
@@ -134,7 +157,7 @@ Section Wait.
             end in
           match r with
           | SFuel => RFuel
-          | SRaise e st2 => RRaise e (set_await st2 i false)   (* Awaiting.__exit__ on the exception path *)
+          | SRaise e st2 => RRaise e (memo_rec e (set_await st2 i false) i)   (* remember; Awaiting.__exit__ on the exception path *)
           | SRes v st2 =>
             let st3 := set_await st2 i false in                (* Awaiting.__exit__ *)
             match v with
@@ -151,8 +174,9 @@ End Wait.
 
 (* with try_compute: return tmp.wait()  -- None when NotReadyError / DeferredCycle was swallowed *)
 Inductive tres := TVal (z : Z) (st : state) | TSwallowed (st : state) | TCrash (st : state) | TFuel.
+(* an outermost speculation: the memo starts empty *)
 Definition try_wait (bound bound2 : nat) (isp : nat -> bool) (G : graph) (fuel : nat) (st : state) (i : nat) : tres :=
-  match wait bound bound2 isp true G fuel st i with
+  match wait true bound bound2 isp true G fuel (clear_memo st) i with
   | RVal z st' => TVal z st'
   | RRaise ECycle st' | RRaise ENotReady st' => TSwallowed st'
   | RRaise ECrash st' => TCrash st'
